@@ -384,7 +384,8 @@ func (p *Printer) writeLit(s string) {
 	// If p.tabWriter is nil, this is the nested printer being used to print
 	// <<- heredoc bodies, so the parent printer will add the escape bytes
 	// later.
-	if p.tabWriter != nil && strings.Contains(s, "\t") {
+	// The tabwriter gives a meaning to tabs, vertical tabs and form feeds.
+	if p.tabWriter != nil && strings.ContainsAny(s, "\t\v\f") {
 		p.w.WriteByte(tabwriter.Escape)
 		defer p.w.WriteByte(tabwriter.Escape)
 	}
